@@ -1,7 +1,43 @@
 """Per-property configuration of ./check (data only; the theorems live in lean/Failsafe/Props)."""
 
+import json, os, re, subprocess
+
 PROPS = {}
 NOT_APPLICABLE = {}
+
+
+def _run(cmd, timeout=1800, env=None):
+    p = subprocess.run(cmd, stdout=subprocess.PIPE, stderr=subprocess.STDOUT, text=True, timeout=timeout, env=env)
+    return p.returncode, p.stdout
+
+
+def runner_blocking(ctx):
+    """C05: real-time lower bound of the blocking acquire paths (three API entry points + the policy executor)."""
+    reps = 1 if ctx["tier"] == "quick" else 5
+    lines, bad = [], []
+    for _ in range(reps):
+        rc, out = _run([os.path.join(ctx["build"], "harness"), "blocking"], timeout=300)
+        for l in out.splitlines():
+            if l.startswith("blocking "):
+                lines.append(l)
+                if not l.endswith(" ok"):
+                    bad.append(l)
+    # a timing disagreement must reproduce (3 more runs) before it counts
+    if bad:
+        again = 0
+        for _ in range(3):
+            rc, out = _run([os.path.join(ctx["build"], "harness"), "blocking"], timeout=300)
+            if any(l.startswith("blocking ") and not l.endswith(" ok") for l in out.splitlines()):
+                again += 1
+        if again < 3:
+            bad = []
+    res = {"name": "TIMING blocking-acquire", "ok": not bad, "evaluations": len(lines), "nontrivial": len(lines), "traces": len(lines),
+           "samples": lines[:2], "violations": []}
+    if bad:
+        res["violations"].append({"kind": "counterexample", "obligation": "TIMING blocking-acquire", "case": bad,
+                                  "oracle": "a blocking acquire returned before the instant at which its permit becomes usable",
+                                  "replay_shell": "{harness} blocking"})
+    return res
 
 PROPS["C05"] = {
     "props": "Failsafe.Props.C05",
@@ -15,6 +51,10 @@ PROPS["C05"] = {
         "Failsafe.Props.C05.bursty_refusal_unobservable", "Failsafe.Props.C05.blocking_acquire_not_early",
         "Failsafe.Tie.Limiter.tie_bursty", "Failsafe.Tie.Limiter.tie_smooth",
     ],
+    "facts": ["selects/ratelimiter.AcquirePermits", "selects/ratelimiter.acquirePermitsWithMaxWait",
+              "effects/ratelimiter:rateLimiter.AcquirePermits", "effects/ratelimiter:rateLimiter.acquirePermitsWithMaxWait",
+              "effects/ratelimiterexecutor:executor.Apply", "locks/smoothStats.acquirePermits", "locks/burstyStats.acquirePermits"],
+    "runners": [runner_blocking],
     "diff": [{"slice": "limiter", "n_quick": 400, "n_thorough": 4000, "seeds_thorough": 6, "n_search": 4000}],
     "rule": "limiter slice: random smooth/bursty configurations (1 ns … 1 h), 60 (quick) or 300 (thorough) requests per case at "
             "boundary-biased instants (exact slot/period boundaries, ±1 ns, long idle gaps after deficits), permit counts 0–50 and "
@@ -58,4 +98,31 @@ PROPS["C03"] = {
         "text": "Lean 4 theorems over the breaker model: the bit ring is the last-N window of the record history for every capacity and length; the ten time slices + summary are the per-slice counts of (head-10, head] for every history (uint subtractions never truncate); the closed state opens exactly on the record after which the threshold holds; open admits nothing before the delay and half-opens exactly at elapsed = delay; remaining delay exact; a fresh half-open state is decided within its trial capacity for every result sequence (WF configurations; rate case under PctComplement); events form a connected path with the old state's metrics, for every operation history. Tie: GEN for the ten decision/stat kernels (Generated = Model proved each run) + DIFF of every public operation through the virtual clock hook.",
         "note": "Trusted: Lean kernel; translator + schema; harness canonicalisation; native Float = float64 (validated differentially); clock non-decreasing; WF configurations. timedStats.currentBucket is DIFF-only.",
         "technique": "Lean 4 proof (refinement to history windows, inductive invariants, induction over operation histories) + regenerated-kernel tie + differential correspondence via clock hook"},
+}
+
+PROPS["C12"] = {
+    "props": "Failsafe.Props.C12",
+    "ties": ["Failsafe.Tie.Classify"],
+    "kernels": ["is_failure", "is_abortable", "handle_result_closure", "abort_result_closure", "handle_errors_closure",
+                "handle_types_closure", "abort_errors_closure"],
+    "facts": ["errorsCheckedSetBy"],
+    "required_theorems": [
+        "Failsafe.Props.C12.isFailure_iff", "Failsafe.Props.C12.abort_iff", "Failsafe.Props.C12.cancel_iff",
+        "Failsafe.Props.C12.isFailure_perm", "Failsafe.Props.C12.build_spec",
+        "Failsafe.Tie.Classify.tie_isFailure", "Failsafe.Tie.Classify.tie_isAbortable", "Failsafe.Tie.Classify.tie_handleResult",
+        "Failsafe.Tie.Classify.tie_abortResult", "Failsafe.Tie.Classify.tie_handleErrors", "Failsafe.Tie.Classify.tie_handleTypes",
+    ],
+    "diff": [{"slice": "classify", "n_quick": 250, "n_thorough": 1500, "seeds_thorough": 4, "n_search": 1500}],
+    "rule": "classify slice: random registration lists (0-3 conditions each of HandleErrors/HandleErrorTypes/HandleResult/HandleIf, same for "
+            "AbortOn*/CancelOn*) x outcomes: results 0..2 with nil, sentinel (library sentinels and user errors), fmt-wrapped, custom-wrapped, "
+            "errors.Join-ed, custom multi-error, typed (value and pointer receiver) errors and ExceededError with and without a last error, "
+            "tree depth <= 3; each outcome is observed through a real fallback, breaker (execution and standalone Record*), retry policy "
+            "(retried / aborted) and hedge policy (first result accepted or hedged); non-trivial = classified as failure or abort-matching",
+    "assumptions": ["predicates passed to HandleIf/AbortIf/CancelIf are pure", "reflect.DeepEqual on the result type is equality (int results)"],
+    "modelled": ["errors.Is / util.ErrorTypesMatch over error trees are modelled (Err.is, Err.typeMatch) and validated differentially against Go, not verified",
+                 "interface-typed targets of HandleErrorTypes are not generated"],
+    "manifest": {
+        "text": "Lean 4 theorem isFailure_iff: for every registration list (any subset, order, multiplicity) and every outcome the policy's classification equals the documented rule (no conditions and an error; or some condition matches, result conditions only for outcomes without an error; or an error and no error-inspecting condition); abort_iff / cancel_iff likewise; order and multiplicity irrelevant. Tie: GEN for IsFailure, IsAbortable and the registered closures (Generated = Model proved each run), FACTS for which registrations mark errors as checked, DIFF observing real fallback/breaker/retry/hedge policies over error trees.",
+        "note": "Trusted: Lean kernel; translator + schema; the tree model of errors.Is / type matching (validated by DIFF against Go on wrapped, joined, typed errors); pure predicates.",
+        "technique": "Lean 4 proof (truth table for every registration list) + regenerated-kernel tie + differential correspondence"},
 }
